@@ -217,12 +217,28 @@ Print Assumptions C03_ckif_spin_released_when_nothing_visible.
    again and leaves the queue [HStep 1]: a busy loop that no delivery will ever end. *)
 Theorem C03_ckif_spin_for_ever_refuted_pinned :
   snd (run_ops step_pinned init f46_ops) = snd (run_ops step init f46_ops) /\
-  spinning f46_state_pinned 1 /\ eff_cancelled f46_state_pinned 2 = false /\
+  spinning f46_state_pinned 1 /\ k_cur (tasks f46_state_pinned 1) = Some 2 /\
+  eff_cancelled f46_state_pinned 2 = false /\
   s_chandle (scopes f46_state_pinned 1) = false /\ timers f46_state_pinned = [] /\
+  snd (step f46_state_pinned (ARun (HStep 1))) = RRet 0 /\
   forall n, snd (step_pinned (pinned_rounds n f46_state_pinned 1) (ARun (HStep 1))) = RBlocked /\
             ready (pinned_rounds n f46_state_pinned 1) = [HStep 1].
-Proof. exact ckif_pinned_run_witness. Qed.
+Proof. exact ckif_pinned_run_witness_full. Qed.
 Print Assumptions C03_ckif_spin_for_ever_refuted_pinned.
+
+(* the same under the conventional name: in f46_state_pinned the premises of C03_ckif_spin_released_when_nothing_visible hold
+   for task 1 (spinning: its step queued, frame CYield YCkIf, no request; current scope 2, not effectively cancelled);
+   today's step returns RRet 0, the pinned step returns RBlocked, for ever *)
+Theorem C03_ckif_spin_released_when_nothing_visible_refuted_pinned :
+  snd (run_ops step_pinned init f46_ops) = snd (run_ops step init f46_ops) /\
+  spinning f46_state_pinned 1 /\ k_cur (tasks f46_state_pinned 1) = Some 2 /\
+  eff_cancelled f46_state_pinned 2 = false /\
+  s_chandle (scopes f46_state_pinned 1) = false /\ timers f46_state_pinned = [] /\
+  snd (step f46_state_pinned (ARun (HStep 1))) = RRet 0 /\
+  forall n, snd (step_pinned (pinned_rounds n f46_state_pinned 1) (ARun (HStep 1))) = RBlocked /\
+            ready (pinned_rounds n f46_state_pinned 1) = [HStep 1].
+Proof. exact ckif_pinned_run_witness_full. Qed.
+Print Assumptions C03_ckif_spin_released_when_nothing_visible_refuted_pinned.
 
 (* ---- bounded response under concurrent activity of the other tasks, within the op_ok domain (audit C03 item 1) ----
    wcyc n s ops s' = one event-loop iteration from s to s': exactly n callbacks are run, each one the head of the
@@ -316,6 +332,20 @@ Theorem C03_checkpoint_raises_fifo_nonvacuous :
   ~ In (HStep 1) [HDeliver 1] /\ In (HDeliver 1) [HDeliver 1] /\ cycle_okc 1 (length (ready s)) s.
 Proof. exact ck_premises. Qed.
 Print Assumptions C03_checkpoint_raises_fifo_nonvacuous.
+
+(* the bystander branch of cycle_okc: ckb_ops = [ANewRoot; ANewScope 1 None false; AEnter 1 1; ANewRoot; AYield 2;
+   ACancel 1 1; AYield 1]; the step of ANOTHER task (task 2, in a checkpoint) is queued in front of the delivery callback
+   and of task 1's step *)
+Theorem C03_checkpoint_raises_fifo_nonvacuous_bystander :
+  let s := final step init ckb_ops in
+  reach_ok s /\ running s <> Some 1 /\ s_cancelled (scopes s 1) = true /\ s_host (scopes s 1) <> None /\
+  reaches s 1 1 /\ k_started (tasks s 1) = true /\ k_waiter (tasks s 1) = None /\
+  k_ctl (tasks s 1) = CYield YCheckpoint /\ ready s = [HStep 2; HDeliver 1] ++ HStep 1 :: [] /\
+  ~ In (HStep 1) [HStep 2; HDeliver 1] /\ In (HDeliver 1) [HStep 2; HDeliver 1] /\
+  k_ctl (tasks s 2) = CYield YCheckpoint /\
+  cycle_okc 1 (length (ready s)) s.
+Proof. exact ckb_premises. Qed.
+Print Assumptions C03_checkpoint_raises_fifo_nonvacuous_bystander.
 
 (* ---- a task that has not started yet (audit C03 item 2) ----
    wok2 t s ops = before t's first step ARun (HStep t): every op is an act of somebody else (as in wop) or the run of
